@@ -515,6 +515,7 @@ func (h *crashHist) recordOK(rec map[string]interface{}) (vid int, ok bool, why 
 }
 
 func runChildB(h *crashHist, dir string) (a crashAnswer) {
+	a.next = -1
 	before := segFiles(dir)
 	var in bytes.Buffer
 	lo, hi := e2eBase-1000, e2eBase+1000000
